@@ -25,8 +25,9 @@ returned, its array equals the valid file's, which elements are attached (netCDF
 construct type; bounds as separate elements), dataset_compliance() non-empty / descriptors open on
 the file after the call (/proc/self/fd).  Message texts are never compared.
 
-The model line carries both the patched and the coded model (`old=2`); `agree` accepts either, so
-that the check is quiet on the repository with and without fixes/C13-*.patch; the oracle decides.
+The model line asks for the model of the reader as it is at /repo HEAD (`old=0` = `patched`: all the
+C13 repairs and 7931fa5 are merged); `agree` is equality with it.  `old=2` (diagnostics) prints
+`patched || HEAD before 7931fa5 || coded`.
 """
 import atexit
 import json
@@ -127,7 +128,7 @@ def enc_attrs(d, keys):
     return ";".join(items) if items else "-"
 
 
-def line_for(F, dvs, old="2"):
+def line_for(F, dvs, old="0"):
     vs = []
     for v in F["vars"]:
         k = {"f": "n", "i": "n", "s": "s", "c": "c"}[v["kind"]]
@@ -554,7 +555,8 @@ def agree(c):
         return True
     if c.stream == "C13.tok":
         return c.impl_out == c.model_out
-    return c.impl_out in [m.strip() for m in c.model_out.split("||")]
+    # the model of the reader as it is at /repo HEAD (every C13 patch is merged): first (or only) part
+    return c.impl_out == c.model_out.split("||")[0].strip()
 
 
 # ------------------------------------------------------------------ oracle
@@ -732,6 +734,11 @@ def classify(c):
     code = c.oracle_fail.split(":")[0]
     if p.get("group"):
         # one signature per failure code: the flattener path fails the same way for every attribute
+        if p["fault"] == "none" and code == "raised-KeyError" and any(
+                "geometry_type" in v["attrs"] and "node_count" not in v["attrs"] for v in p["file"]["vars"]):
+            # a VALID grouped file: the node dimension of a geometry container without node_count is
+            # looked up in the flattened dataset under its unflattened name
+            return "group:none:raised-KeyError:geometry-without-node_count"
         return f"group:{p['fault']}:{code}"
     if p["fault"] == "none":
         return f"valid-file:{code}"
